@@ -270,7 +270,7 @@ pub fn run(ctx: &mut Ctx) {
     ctx.section(
         "ess-reference",
         "library ESS vs f64 Geyer reference (interval oracle), both autocovariance paths by construction",
-        t.pick(2500, 250_000),
+        t.pick(25_000, 800_000),
         16,
         move || bx(arr_case(16, long, false)),
         check_arr,
@@ -278,7 +278,7 @@ pub fn run(ctx: &mut Ctx) {
     ctx.section(
         "ess-metamorphic",
         "time reversal, chain permutation, affine map; prefixes of half-length 98..103 of one data set against the reference (both paths on the same data)",
-        t.pick(600, 60_000),
+        t.pick(6_000, 200_000),
         16,
         meta_strategy,
         check_meta,
@@ -286,7 +286,7 @@ pub fn run(ctx: &mut Ctx) {
     ctx.section(
         "ess-calibration",
         "iid => ESS/N in [0.7,1.5]; AR(1) => ESS/(N(1-phi)/(1+phi)) in [0.5,2], N >= 2000 per chain",
-        t.pick(120, 6_000),
+        t.pick(600, 20_000),
         16,
         calib_strategy,
         check_calib,
